@@ -639,9 +639,8 @@ macro_rules! backend_impl {
                     // shadow bookkeeping: a failed step leaves the destination's value unspecified
                     match (st, shadow) {
                         (ST_OK, Some((re, im))) => { dst.re = re; dst.im = im; dst.valid = true; }
-                        (_, Some((re, im))) if matches!(op, DECRYPT | SET_META | REALLOC | COMPACT | RESCALE_ASSIGN | DIVPOW2_ASSIGN | ROTATE_ASSIGN) => {
-                            // these reject before touching the data
-                            dst.re = re; dst.im = im; dst.valid = true;
+                        (_, _) if matches!(op, DECRYPT | SET_META | REALLOC | COMPACT | RESCALE_ASSIGN | DIVPOW2_ASSIGN | ROTATE_ASSIGN) => {
+                            // these reject before touching the data: the old value stays
                         }
                         _ => { dst.valid = false; }
                     }
@@ -923,6 +922,13 @@ macro_rules! gen_impl {
                     fresh(rng, &mut mach, &mut prog, r, &mut push);
                     continue;
                 }
+                // ct x ct products give a wrongly scaled result when one operand has the larger log_delta and the other the
+                // larger log_budget (known class): align the budgets first, as ckks_align_assign is meant for
+                if !keep && matches!(s[0], MUL_INTO | MUL_ASSIGN | MULADD_CT | MULSUB_CT) && fix.len() == 2 && fix[0] != fix[1] {
+                    let (l0, b0, _) = mach.meta(fix[0] as usize);
+                    let (l1, b1, _) = mach.meta(fix[1] as usize);
+                    if (l0 - l1) * (b0 - b1) < 0 { push(&mut mach, &mut prog, st(&[ALIGN, fix[0], 0, fix[1]])); }
+                }
                 if !keep {
                     for r in fix {
                         let (l, bu, sz) = mach.meta(r as usize);
@@ -959,6 +965,12 @@ pub fn generate(tier: &str, seed: u64) -> Vec<Rec> {
         out.push(Rec::new(code, vec![be, logn as i128, b2k as i128, kmax as i128, chk_flag()], steps));
     }
     if value {
+        // ct x ct product of operands with mixed metadata: (30,90)x(20,110) and (20,110)x(30,90) are wrongly scaled, the other two are fine
+        for (la, ka, lb_, kb) in [(30i128, 120i128, 20i128, 130i128), (30, 130, 20, 120), (30, 120, 30, 130), (20, 130, 30, 120)] {
+            let steps = vec![st(&[ALLOC, 0, 0, 0, 7]), st(&[ALLOC, 1, 0, 0, 7]), st(&[ALLOC, 2, 0, 0, 8]),
+                st(&[ENCRYPT, 0, 0, 0, la, 3, ka, 1454563580, 3, 0]), st(&[ENCRYPT, 1, 0, 0, lb_, 3, kb, 2300918428, 0, 0]), st(&[MUL_INTO, 2, 0, 1])];
+            out.push(Rec::new(16002, vec![1, 8, 19, 152, chk_flag()], steps));
+        }
         for logm in 1..=12i128 { for kind in [0i128, 3] { for e in [0i128, 20, -20] {
             out.push(Rec::new(16003, vec![logm, rng.next() as u32 as i128, kind, e], vec![]));
         } } }
